@@ -31,7 +31,7 @@ F08C = 'F08-no-component-IndexError'
 F09 = 'F09-check-then-create-race-same-local-path'
 
 CHAINS = ['D', 'DN', 'DKN', 'KDN', 'ND', 'DNK', 'K', 'N']
-CHAINS6 = ['DN', 'DKN', 'D', 'KDN']     # chains for the length-6 strings of the thorough tier
+CHAINS6 = ['DN', 'DKN']     # chains for the length-6 strings of the thorough tier
 
 
 _STRATS = {}
@@ -242,10 +242,14 @@ def monitor_result(code, remote, dl, res, existed_before):
 # --------------------------------------------------------------------------------------------
 
 def shards(maxlen):
-    """(prefix, free) : all strings prefix + w, |w| = free"""
-    out = [('', n) for n in range(0, min(maxlen, 4) + 1)]
+    """(prefix, free) : all strings prefix + w, |w| = free; small shards so that the coqc runs spread over the cores"""
+    out = [('', n) for n in range(0, min(maxlen, 2) + 1)]
+    if maxlen >= 3:
+        out += [(c, 2) for c in ALPHA]
+    if maxlen >= 4:
+        out += [(c, 3) for c in ALPHA]
     if maxlen >= 5:
-        out += [(c, 4) for c in ALPHA]
+        out += [(c + d, 3) for c in ALPHA for d in ALPHA]
     if maxlen >= 6:
         out += [(c + d, 4) for c in ALPHA for d in ALPHA]
     return out
@@ -294,7 +298,7 @@ def exhaustive(run: Run, found):
         dlcomps = ['b', 'dl']
         defs = coq_digest_defs(snap, dlcomps)
         defs6 = coq_digest_defs(snap, dlcomps, CHAINS6)
-        maxlen = 5 if run.tier == 'quick' else 6
+        maxlen = 4 if run.tier == 'quick' else 6
         sh = shards(maxlen)
         texts, expect = [], []
         nstr = 0
@@ -376,7 +380,14 @@ COMPS = ['..', '.', '', '@@alias', '@@', '@x', 'C:', 'c:', 'C', 'CC:', 'a', 'b',
 SEPS = ['\\', '/', '\\\\', '//', '\\/', '/\\']
 
 
+HOSTILE = ['@@x\\Music\\album/../../../outside/evil.mp3', 'C:\\share\\a/b/c.mp3', 'a\\b/../c', '..\\..\\x', 'a/..', 'a\\.', '\\\\', '', '/',
+           '@@x\\..\\y', 'd\\..', '..', '.', 'a\\..\\', 'x\\y\\..\\..\\..\\z', 'C:\\..\\a', 'a/./b', './a', '../a', 'a\\../b',
+           '//..//', 'dir\\sub/file.txt', 'dir/sub\\..', '\\\\srv\\share\\f', 'a\\ ', ' \\a', 'a\\b\\', '/etc/passwd', '\\..\\..\\etc\\passwd']
+
+
 def gen_remote(rng):
+    if rng.random() < 0.12:
+        return rng.choice(HOSTILE)
     n = rng.choice([0, 1, 1, 2, 2, 3, 4, 6])
     parts = [rng.choice(COMPS) for _ in range(n)]
     s = ''
@@ -430,15 +441,19 @@ def _touch(p):
 
 
 def random_cases(run: Run, found):
-    n = 500 if run.tier == 'quick' else 4000
+    n = 400 if run.tier == 'quick' else 4000
     cases = []
-    for i in range(n):
+    plan = [(h, c) for h in HOSTILE for c in ('DN', 'DKN', 'D', 'DK')] + [None] * n
+    for item in plan:
         t = Tree()
         try:
-            remote = gen_remote(run.rng)
-            code = ''.join(run.rng.choice('DKN') for _ in range(run.rng.choice([0, 1, 2, 2, 3, 3, 4])))
-            if run.rng.random() < 0.3:
-                code = 'DN'
+            if item is not None:
+                remote, code = item
+            else:
+                remote = gen_remote(run.rng)
+                code = ''.join(run.rng.choice('DKN') for _ in range(run.rng.choice([0, 1, 2, 2, 3, 3, 4])))
+                if run.rng.random() < 0.3:
+                    code = 'DN'
             populate(run.rng, t, remote, code)
             snap = t.snapshot()
             from aioslsk.naming import chain_strategies
@@ -597,6 +612,121 @@ def concurrency(run: Run, found):
     return cases
 
 
+class _FileConn:
+    """file connection delivering a payload through the receive_file contract"""
+
+    def __init__(self, payload):
+        self.payload = payload
+
+    async def send_message(self, data):
+        pass
+
+    def set_connection_state(self, state, **kw):
+        pass
+
+    async def disconnect(self, reason=None):
+        pass
+
+    async def receive_file(self, handle, filesize, callback=None):
+        import asyncio
+        data = self.payload[len(self.payload) - filesize:] if filesize > 0 else b''
+        for i in range(0, len(data), 4):
+            await handle.write(data[i:i + 4])
+            if callback:
+                callback(data[i:i + 4])
+            await asyncio.sleep(0)
+
+
+def flow_downloads(remotes, together, pre=()):
+    """The real TransferManager._initialize_download -> _download_file path for downloads that are all
+    accepted (INITIALIZING) first; then the file connections arrive one after the other, each download
+    finishing before the next connection (together=False), or all at the same instant (together=True)."""
+    import asyncio
+    from unittest.mock import AsyncMock, MagicMock, Mock
+    from vlib import vloop
+    from aioslsk.shares.manager import SharesManager
+    from aioslsk.transfer.manager import TransferManager
+    from aioslsk.transfer.model import Transfer, TransferDirection
+    from aioslsk.protocol.messages import PeerTransferRequest
+    from aioslsk.settings import Settings, CredentialsSettings
+    from aioslsk.events import EventBus
+    t = Tree()
+    loop = vloop.new_loop()
+    try:
+        for n in pre:
+            t.touch(n)
+        st = Settings(credentials=CredentialsSettings(username='me', password='pw'))
+        st.shares.download = t.dl
+        bus = EventBus()
+        network = AsyncMock()
+        network.upload_rate_limiter = MagicMock()
+        network.download_rate_limiter = MagicMock()
+        sm = SharesManager(st, bus, network)
+        tm = TransferManager(st, bus, Mock(), sm, network)
+        tm.request_management_cycle = Mock()
+        payloads = [bytes([65 + k]) * (8 + 4 * k) for k in range(len(remotes))]
+        trs, tasks = [], []
+
+        async def main():
+            for k, r in enumerate(remotes):
+                tr = Transfer(f'user{k}', r, TransferDirection.DOWNLOAD)
+                await tr.state.queue()
+                trs.append(tr)
+                req = PeerTransferRequest.Request(TransferDirection.DOWNLOAD.value, 100 + k, r, filesize=len(payloads[k]))
+                tasks.append(asyncio.ensure_future(tm._initialize_download(tr, AsyncMock(), req)))
+            for _ in range(10):
+                await asyncio.sleep(0)
+            if together:
+                for k in range(len(remotes)):
+                    tm._file_connection_futures[100 + k].set_result(_FileConn(payloads[k]))
+                await asyncio.wait_for(asyncio.gather(*tasks, return_exceptions=True), 600)
+            else:
+                for k in range(len(remotes)):
+                    tm._file_connection_futures[100 + k].set_result(_FileConn(payloads[k]))
+                    await asyncio.wait_for(asyncio.gather(tasks[k], return_exceptions=True), 600)
+                    for _ in range(5):
+                        await asyncio.sleep(0)
+        loop.run_coro(main(), timeout_virtual=5000)
+        out = []
+        for k, tr in enumerate(trs):
+            content = None
+            if tr.local_path and os.path.isfile(tr.local_path):
+                with open(tr.local_path, 'rb') as fh:
+                    content = fh.read()
+            out.append({'local': tr.local_path and os.path.realpath(tr.local_path), 'state': tr.state.VALUE.name,
+                        'intact': content == payloads[k], 'inside': bool(tr.local_path) and os.path.realpath(tr.local_path).startswith(os.path.realpath(t.dl) + '/')})
+        return out
+    finally:
+        vloop.close_loop(loop)
+        t.close()
+
+
+def flow_check(remotes, together, pre=()):
+    """-> list of (key, what)"""
+    o = flow_downloads(remotes, together, pre)
+    loc = [x['local'] for x in o if x['local']]
+    v = []
+    if len(set(loc)) != len(loc):
+        key = F09 if together else 'same-local-path:downloads-accepted-together-connections-one-after-the-other'
+        v.append((key, f'downloads {remotes} accepted together ({"file connections at the same instant" if together else "file connections one after the other"}) '
+                       f'were given the same local path; states {[x["state"] for x in o]}, files intact: {[x["intact"] for x in o]}'))
+    elif not all(x['intact'] and x['inside'] for x in o):
+        v.append(('download-flow-corrupt', f'downloads {remotes}: {[(x["state"], x["intact"], x["inside"]) for x in o]}'))
+    return v
+
+
+def flows(run: Run, found):
+    for remotes in (['@@a\\Music\\01 - song.mp3', '@@b\\stuff\\01 - song.mp3'], ['a.txt', 'x\\a.txt', 'y/a.txt']):
+        for together in (False, True):
+            try:
+                v = flow_check(remotes, together)
+            except Exception as e:
+                v = [('impl-exception', f'download flow: {type(e).__name__}: {e}')]
+            run.case({'flow': remotes, 'together': together}, nontrivial=True, kind='download-flow')
+            for key, what in v:
+                add(run, found, key, what, {'flow': remotes, 'together': together})
+
+
 def coq_concurrent_cases(cases):
     lines = [COQ_PRELUDE,
              'Definition DL : path := [[98]; [100;108]].',
@@ -633,6 +763,8 @@ def add(run: Run, found, key, what, witness):
 
 def replay_witness(wit):
     """-> list of (key, what)"""
+    if 'flow' in wit:
+        return flow_check(wit['flow'], wit['together'])
     if 'schedule' in wit:
         sched = [tuple(e) for e in wit['schedule']]
         o = run_downloads(wit['chain'], wit['remotes'], sched, wit.get('pre', []))
@@ -688,6 +820,7 @@ def run(run: Run):
     exhaustive(run, found)
     cases = random_cases(run, found)
     conc = concurrency(run, found)
+    flows(run, found)
     texts = [coq_random_cases(cases[i:i + 150]) for i in range(0, len(cases), 150)]
     texts.append(coq_concurrent_cases(conc))
     try:
